@@ -109,7 +109,16 @@ class ListenerSocketAdapter(AsyncListener[_T_Stream]):
         connect = self.__accepted_socket_factory.connect
         logger = logging.getLogger(__name__)
 
-        async def client_connection_task(client_socket: _socket.socket, task_group: TaskGroup) -> None:
+        # Accepted sockets whose task did not start yet.
+        # A task cancelled before its first step never runs: nobody else would close its socket.
+        pending_sockets: set[_socket.socket] = set()
+
+        def close_pending_sockets() -> None:
+            while pending_sockets:
+                pending_sockets.pop().close()
+
+        async def client_connection_task(client_socket: _socket.socket) -> None:
+            pending_sockets.discard(client_socket)
             try:
                 stream = await connect(self.__backend, client_socket)
             except asyncio.CancelledError:
@@ -130,18 +139,23 @@ class ListenerSocketAdapter(AsyncListener[_T_Stream]):
                 if not isinstance(exc, Exception):
                     raise
             else:
-                task_group.start_soon(handler, stream)
+                del client_socket
+                # Stay in this task: there would be the same issue with a new one (nobody would close the stream).
+                await handler(stream)
 
         async with contextlib.AsyncExitStack() as stack:
             stack.enter_context(self.__serve_guard)
             if task_group is None:
                 task_group = await stack.enter_async_context(self.__backend.create_task_group())
+            # The tasks already created get their first step before this callback runs.
+            stack.callback(asyncio.get_running_loop().call_soon, close_pending_sockets)
             while True:
                 # Always drop socket reference on loop begin
                 client_socket: _socket.socket | None = None
 
                 client_socket = await self.raw_accept()
-                task_group.start_soon(client_connection_task, client_socket, task_group)
+                pending_sockets.add(client_socket)
+                task_group.start_soon(client_connection_task, client_socket)
 
         raise AssertionError("Expected code to be unreachable.")
 
